@@ -108,6 +108,7 @@ pub fn run_fresh<P: Prop>(prop: &Arc<P>, case: &P::Case, keep: bool) -> RunResul
         let r = guard(|| p.exec(&c, &mut ctx));
         crate::sim::set_sim(false);
         crate::sim::clock::uninstall();
+        crate::sim::hybrid_clock::uninstall();
         (r, ctx)
     }).expect("spawn run thread");
     match h.join() {
@@ -273,6 +274,7 @@ struct Agg {
     samples: BTreeMap<u64, Value>,
     hashes: BTreeMap<u64, u64>,
     harness_errors: Vec<String>,
+    slowest: (f64, u64),
 }
 
 pub fn run_check<P: Prop>(prop: P, tier: Tier) -> ! {
@@ -320,7 +322,7 @@ pub fn run_check<P: Prop>(prop: P, tier: Tier) -> ! {
 
     // ---- batch
     let agg = Arc::new(Mutex::new(Agg { evaluations: 0, counters: BTreeMap::new(), nontrivial: HashSet::new(), states: HashSet::new(), sim_ns: 0, log_events: 0,
-        first_by_class: BTreeMap::new(), violating_runs: 0, samples: BTreeMap::new(), hashes: BTreeMap::new(), harness_errors: Vec::new() }));
+        first_by_class: BTreeMap::new(), violating_runs: 0, samples: BTreeMap::new(), hashes: BTreeMap::new(), harness_errors: Vec::new(), slowest: (0.0, 0) }));
     let next = Arc::new(AtomicU64::new(0));
     let stop = Arc::new(AtomicBool::new(false));
     let slots: Arc<Vec<Mutex<Option<(u64, Instant)>>>> = Arc::new((0..workers).map(|_| Mutex::new(None)).collect());
@@ -338,11 +340,14 @@ pub fn run_check<P: Prop>(prop: P, tier: Tier) -> ! {
                 *slots[w].lock().unwrap() = Some((i, Instant::now()));
                 self::slots::set(w, i + 1);
                 let case = match guard(|| prop.gen(run_seed, i, tier)) { Ok(c) => c, Err((loc, msg)) => { agg.lock().unwrap().harness_errors.push(format!("generator panicked for run {}: {} @ {}", i, msg, loc)); continue; } };
+                let tr = Instant::now();
                 let r = run_fresh(&prop, &case, false);
+                let dur = tr.elapsed().as_secs_f64();
                 *slots[w].lock().unwrap() = None;
                 self::slots::set(w, 0);
                 let mut a = agg.lock().unwrap();
                 a.evaluations += 1;
+                if dur > a.slowest.0 { a.slowest = (dur, i); }
                 for (k, v) in &r.ctx.counters { *a.counters.entry(k).or_insert(0) += v; }
                 for k in &r.ctx.nontrivial { if a.nontrivial.len() < 20_000_000 { a.nontrivial.insert(*k); } }
                 for k in &r.ctx.states { if a.states.len() < 20_000_000 { a.states.insert(*k); } }
@@ -456,14 +461,14 @@ pub fn run_check<P: Prop>(prop: P, tier: Tier) -> ! {
             "determinism_recheck": {"runs_executed_twice": rechecked, "event_log_hash_mismatches": mismatches.len()},
             "known_findings_replayed": known_report, "violations_suppressed_by_known_findings": suppressed,
             "violating_runs_in_batch": a.violating_runs,
-            "zero_probes": zero_probes,
+            "zero_probes": zero_probes, "slowest_run": {"seconds": a.slowest.0, "run_index": a.slowest.1},
             "exhaustive": false
         },
         "assumptions": prop.assumptions(), "wall_s": wall_s, "violations": reported
     });
     let evdir = verif_dir().join("evidence"); let _ = std::fs::create_dir_all(&evdir);
     std::fs::write(evdir.join(format!("{}.json", id)), serde_json::to_string_pretty(&ev).unwrap()).expect("write evidence");
-    outln!("[{}] evaluations={} distinct_nontrivial={} violating_runs={} reported={} suppressed={} recheck={}/{} wall={:.1}s", id, a.evaluations, a.nontrivial.len(), a.violating_runs, reported, suppressed, rechecked - mismatches.len() as u64, rechecked, wall_s);
+    outln!("[{}] evaluations={} distinct_nontrivial={} violating_runs={} reported={} suppressed={} recheck={}/{} slowest={:.1}s@{} wall={:.1}s", id, a.evaluations, a.nontrivial.len(), a.violating_runs, reported, suppressed, rechecked - mismatches.len() as u64, rechecked, a.slowest.0, a.slowest.1, wall_s);
     if !a.harness_errors.is_empty() {
         for e in a.harness_errors.iter().take(5) { outln!("HARNESS-ERROR {}", e); }
         std::process::exit(2);
